@@ -291,7 +291,7 @@ struct reb_simulation* reb_simulation_create_from_file(char* filename, int64_t s
     enum reb_simulation_binary_error_codes warnings = REB_SIMULATION_BINARY_WARNING_NONE;
     struct reb_simulation* r = reb_simulation_create();
     
-    struct reb_simulationarchive* sa = malloc(sizeof(struct reb_simulationarchive)); 
+    struct reb_simulationarchive* sa = calloc(1, sizeof(struct reb_simulationarchive)); // error paths of the reader leave members untouched
     reb_simulationarchive_create_from_file_with_messages(sa, filename, NULL, &warnings);
     if (warnings & REB_SIMULATION_BINARY_ERROR_NOFILE){
         // Don't output an error if file does not exist, just return NULL.
